@@ -9,8 +9,8 @@ package main
 // `T.f>sink` requires the field to reach that particular sink (e.g. the length-prefixed writer).
 
 import (
-	"go/token"
 	"fmt"
+	"go/token"
 	"go/types"
 	"sort"
 	"strings"
@@ -1019,6 +1019,33 @@ func runUnguardedRules(p *Program, id string) ([]*Gen, []string) {
 							if mayAliasParam(c.Call.Args[an], parts[1], map[ssa.Value]bool{}) {
 								o.Pre = "sat"
 								o.Model = "argument " + fmt.Sprint(an) + " (" + valuePath(c.Call.Args[an]) + ") can share its backing array with parameter " + parts[1] + " (no copy in between)"
+							}
+						}
+					}
+					// a saved copy must be taken BEFORE the variable is overwritten (value-read-before-overwrite=1): the stored
+					// value is a read of a field of a local struct variable, and no whole-variable store to that variable
+					// precedes the read in the read's block (save-then-overwrite-then-restore keeps its order)
+					if kv["value-read-before-overwrite"] != "" {
+						if st, isStore := in.(*ssa.Store); isStore {
+							why := "the stored value " + valuePath(st.Val) + " is not a read of a field of a local struct variable"
+							if u, ok := st.Val.(*ssa.UnOp); ok && u.Op == token.MUL {
+								if fa, ok := u.X.(*ssa.FieldAddr); ok {
+									if al, ok := fa.X.(*ssa.Alloc); ok {
+										why = ""
+										for _, x := range u.Block().Instrs {
+											if x == ssa.Instruction(u) {
+												break
+											}
+											if ws, ok := x.(*ssa.Store); ok && ws.Addr == ssa.Value(al) {
+												why = "the saved value " + valuePath(st.Val) + " is read after " + al.Comment + " was overwritten as a whole (it is the new value, not the one to restore)"
+											}
+										}
+									}
+								}
+							}
+							if why != "" {
+								o.Pre = "sat"
+								o.Model = why
 							}
 						}
 					}
